@@ -24,6 +24,7 @@ package quota
 import (
 	"bytes"
 	"fmt"
+	"math"
 	"path/filepath"
 	"runtime"
 	"sort"
@@ -382,6 +383,26 @@ func maxq(a, b quantity.Size) quantity.Size {
 	return b
 }
 
+// addSaturated returns a+b, or the nearest representable value if the sum
+// would overflow, so that accumulated reservations never wrap around.
+func addSaturated(a, b int) int {
+	if b > 0 && a > math.MaxInt-b {
+		return math.MaxInt
+	}
+	if b < 0 && a < math.MinInt-b {
+		return math.MinInt
+	}
+	return a + b
+}
+
+// addSaturatedq is addSaturated for sizes.
+func addSaturatedq(a, b quantity.Size) quantity.Size {
+	if b > math.MaxUint64-a {
+		return math.MaxUint64
+	}
+	return a + b
+}
+
 // GetLocalCPUSetQuota returns the current CPU set quota for the group. This
 // does not return any inheritted CPU set quota.
 func (grp *Group) GetLocalCPUSetQuota() []int {
@@ -474,9 +495,9 @@ func (grp *Group) getQuotaAllocations(allQuotas map[string]*groupQuotaAllocation
 		// limits of the below sub-group, or the actual usage of the sub-group. The reason we must do this
 		// is because if the sub-group doesn't have any limit set for a quota, but the sub-group has sub-groups
 		// itself that do have limits, then we must use that value instead. Hence the max* functions.
-		limits.MemoryReservedByChildren += maxq(subGroupLimits.MemoryLimit, subGroupLimits.MemoryReservedByChildren)
-		limits.CPUReservedByChildren += max(subGroupLimits.CPULimit, subGroupLimits.CPUReservedByChildren)
-		limits.ThreadsReservedByChildren += max(subGroupLimits.ThreadsLimit, subGroupLimits.ThreadsReservedByChildren)
+		limits.MemoryReservedByChildren = addSaturatedq(limits.MemoryReservedByChildren, maxq(subGroupLimits.MemoryLimit, subGroupLimits.MemoryReservedByChildren))
+		limits.CPUReservedByChildren = addSaturated(limits.CPUReservedByChildren, max(subGroupLimits.CPULimit, subGroupLimits.CPUReservedByChildren))
+		limits.ThreadsReservedByChildren = addSaturated(limits.ThreadsReservedByChildren, max(subGroupLimits.ThreadsLimit, subGroupLimits.ThreadsReservedByChildren))
 
 		// We need to merge the allowed CPUs lists, but we need to make sure that the list is unique, since cpu cores
 		// can be reused between sub-groups.
